@@ -57,6 +57,16 @@ def sweep_oracle(case, out):
 def streams(tier, rng):
     vals = [0, 1, 7, 8, 9, 10, 15, 16, 255, 256, 2**31 - 1, 2**31, 2**31 + 1, 2**32 - 1, 2**32, 2**63 - 1, 2**63, 2**63 + 1, 2**64 - 1,
             10**9, 10**9 - 1, 10**10, 10**19, 10**19 - 1, 2**30, 2**28, 2**60, 8**10, 8**10 - 1, 16**7, 16**8 - 1, 8**21, 16**15, 10**18]
+    # every power of every base, its neighbours, and the same magnitudes negated in both widths (a divisor table that starts one
+    # step too low or too high shows only at an exact power)
+    pw = set()
+    for b in (2, 8, 10, 16):
+        k = 1
+        while b ** k < 2 ** 64:
+            for x in (b ** k - 1, b ** k, b ** k + 1):
+                pw.update((x, (2 ** 64 - x) % 2 ** 64, (2 ** 32 - x) % 2 ** 32))
+            k += 1
+    vals += sorted(pw - set(vals))
     nrand = 400 if tier == 'quick' else 6000
     vals += [rng.getrandbits(64) >> rng.randrange(64) for _ in range(nrand)]
     lens = [0, 1, 2, 3, 5, 10, 11, 12, 20, 21, 22, 33, 34, 65, 66, 70]
